@@ -35,7 +35,9 @@ Forms == <<
   F("div[t=v]",          "div", "",  <<>>,         <<<<"t", "v">>>>,           NOTEXT,               FALSE, FALSE),
   F("x#i{l1\nlonger2}",  "x",   "i", <<>>,         <<>>,                       <<"l1", "longer2">>,  FALSE, FALSE),
   F("#j",                "?",   "j", <<>>,         <<>>,                       NOTEXT,               FALSE, TRUE),
-  F("em.c{t}",           "em",  "",  <<"c">>,      <<>>,                       <<"t">>,              FALSE, FALSE) >>
+  F("em.c{t}",           "em",  "",  <<"c">>,      <<>>,                       <<"t">>,              FALSE, FALSE),
+  F("p{one\rtwo}",       "p",   "",  <<>>,         <<>>,                       <<"one", "two">>,     FALSE, FALSE),
+  F("x.d{a\r\nbc}",      "x",   "",  <<"d">>,      <<>>,                       <<"a", "bc">>,        FALSE, FALSE) >>
 FormKey(k) == "F" \o ToString(k)
 KeyIdx(key) == CHOOSE k \in 1..Len(Forms) : FormKey(k) = key
 
